@@ -376,6 +376,7 @@ func init() {
 		return v
 	})
 	g("Symbolic", func(fr *frame, a []value) value { return true })
+	g("RepoRoot", func(fr *frame, a []value) value { return "/repo" })
 	g("Int64", func(fr *frame, a []value) value { return E.apiScalar("int", a[0].(string), 64) })
 	g("Uint64", func(fr *frame, a []value) value { return E.apiScalar("uint", a[0].(string), 64) })
 	g("Int", func(fr *frame, a []value) value { return E.apiScalar("int", a[0].(string), 64) })
